@@ -5,7 +5,7 @@ import json, os, subprocess, sys
 ROOT = os.path.dirname(os.path.dirname(os.path.abspath(__file__)))
 
 # id -> (implemented, category, technique, level text, note, design_ref)
-W1 = "4 planners x 6 space families x generated worlds / parameters / seeds under the virtual clock, planner-RNG and scripted sample sequences (16 000 runs quick, 1.5 million thorough; C03: 8 000 / 600 000), plus call histories (re-setup with a new checker on the same problem object, repeated solve, replaced problems, user-mutated step / radius fields) and problems that list two or three start states (valid, deep or marginally inside an obstacle)"
+W1 = "4 planners x 6 space families x generated worlds / parameters / seeds under the virtual clock, planner-RNG and scripted sample sequences (16 000 runs quick, 1.5 million thorough; C03: 8 000 / 600 000), plus call histories (re-setup with a new checker on the same problem object, repeated solve, replaced problems, user-mutated step / radius fields) and problems that list two or three start states (valid, deep or marginally inside an obstacle); C01 / C03 / C05 also run 64 variants of a hand-shaped world in which the tree spirals around a finite wall"
 CHECKS = {
     "C01": (True, "exploration",
             "runtime monitor at the validity-checker boundary: every state of every returned path re-evaluated with the pure validity function; invalid-start cases checked against the required error",
@@ -34,7 +34,7 @@ CHECKS = {
             "DESIGN.md section 5 C05"),
     "C06": (True, "exploration",
             "online deadline monitor on sampler events under a virtual clock (cost model), soundness on infeasible-by-construction worlds, query-budget trip as a logical-step progress bound",
-            "12 000 (quick) / 1 000 000 (thorough) solve / construct_roadmap calls (a quarter of them warm-started: same planner and problem object first used in an empty world) with time limits 0..5000 ticks where every validity query and sampler call costs one tick: no iteration may begin after first-clock-read + T; no path may be returned in a world that is infeasible by construction (goal sealed by a shell >= 2 lvs thick, start sealed in, goal region invalid; sealed worlds may list an invalid extra start state inside the seal); no call may exceed a query budget >= 10x any terminating execution. Liveness is restated as this bounded-step property.",
+            "12 000 (quick) / 1 000 000 (thorough) solve / construct_roadmap calls (a quarter of them warm-started: same planner and problem object first used in an empty world) with time limits 0..5000 ticks where every validity query and sampler call costs one tick (a tick is 1 microsecond, in an eighth of the cases 0.37 s, so limits range from microseconds to half an hour of virtual time; an eighth of the tree-planner cases draw scripted samples with duplicates): no iteration may begin after first-clock-read + T; no path may be returned in a world that is infeasible by construction (goal sealed by a shell >= 2 lvs thick, start sealed in, goal region invalid; sealed worlds may list an invalid extra start state inside the seal); no call may exceed a query budget >= 10x any terminating execution. Liveness is restated as this bounded-step property.",
             "Trusted: the clock shim (hook H2/H3; a solve that never read it is reported inconclusive), triangle inequality of the metric for the infeasibility argument. Known finding K-2 (resolution fraction <= 0).",
             "DESIGN.md section 5 C06"),
     "C07": (True, "exploration",
@@ -54,7 +54,7 @@ CHECKS = {
             "DESIGN.md section 5 C15"),
     "C16": (True, "exploration",
             "transition monitor over consecutive snapshots + the logged sample of each single-stepped iteration; Hoeffding bound on goal-sample frequency",
-            "Each observed transition is checked against the nearest-node / one-step rule (ties existential), at most one node per tree, rejection only after a rejected query, RRT-Connect balance / connect / termination rules; whole solve calls of 8-68 iterations must be explainable node by node (insertion order) by the samples they drew (existential; covers state carried between iterations of one call); goal-bias frequencies over 18 / 72 long seeded runs (half of them with the public goal_bias field changed after setup) against Hoeffding at alpha 1e-9.",
+            "Each observed transition is checked against the nearest-node / one-step rule (ties existential), at most one node per tree, rejection only after a rejected query, RRT-Connect balance / connect / termination rules; whole solve calls of 8-68 iterations must be explainable node by node (insertion order) by the samples they drew (existential; covers state carried between iterations of one call); goal-bias frequencies over 24 / 96 long seeded runs (biases 0, 0.004, 0.05, 0.3, 0.5, 0.9, 0.996, 1; Hoeffding plus a multiplicative Chernoff bound for the rare outcome) (half of them with the public goal_bias field changed after setup) against Hoeffding at alpha 1e-9.",
             "Trusted: tolerances of DESIGN.md section 3.",
             "DESIGN.md section 5 C16"),
     "C17": (True, "exploration",
@@ -64,7 +64,7 @@ CHECKS = {
             "DESIGN.md section 5 C17"),
     "C18": (True, "exploration",
             "roadmap snapshot compared with the accepted samples of the event log, graph invariants, link completeness, reference multi-source BFS for every query",
-            "6 000 / 250 000 PRM life cycles (incl. a second life after a new setup) with exact sample budgets (virtual clock), scripted (incl. all scripts to depth 4) and planner-RNG samples, radii from isolated nodes to complete graphs, obstacle-free and obstructed worlds, replaced problems, and a query that runs out of time in the middle of the graph search (every clock read costs a tick) followed by the same query with time.",
+            "6 000 / 250 000 PRM life cycles (incl. a second life after a new setup) with exact sample budgets (virtual clock), scripted (incl. all scripts to depth 4) and planner-RNG samples, radii from isolated nodes to complete graphs plus NaN / inf / 0 / negative ones, obstacle-free and obstructed worlds, replaced problems, and a query that runs out of time in the middle of the graph search (every clock read costs a tick) followed by the same query with time.",
             "Trusted: reference BFS; start links bracketed between certain and possible in obstructed worlds (exact in obstacle-free ones).",
             "DESIGN.md section 5 C18"),
     "C09": (True, "exploration",
@@ -99,11 +99,11 @@ CHECKS = {
             "DESIGN.md section 5 C14"),
     "C19": (True, "exploration",
             "differential runtime check across the language boundary: the same seeded scenarios executed through oxmpl_py (Python callbacks with bit-identical arithmetic) and through the core, compared bit for bit",
-            "240 / 2400 scenarios (6 problem-definition variants x 4 planners x generated worlds / parameters / seeds) are run through the freshly built extension module; RRT / RRT-Connect / RRT* paths must equal the core's bit for bit (and make the same number of validity queries and goal-sampler calls; some goal samplers return states outside the goal) and errors by kind, PRM paths must be sound under the same primitives; about 2300 wrapper probes over the C12 lattice compare ValueError-vs-Err, distances, extents and canonicalised angles bitwise.",
+            "240 / 2400 scenarios (6 problem-definition variants x 4 planners x generated worlds / parameters / seeds) are run through the freshly built extension module; RRT / RRT-Connect / RRT* paths must equal the core's bit for bit (and make the same number of validity queries and goal-sampler calls; some goal samplers return states outside the goal; some resolution fractions lie outside (0,1]) and errors by kind, PRM paths must be sound under the same primitives; about 2300 wrapper probes over the C12 lattice compare ValueError-vs-Err, distances, extents and canonicalised angles bitwise.",
             "Trusted: CPython floats are IEEE doubles; a wall-clock time-out on the Python side makes that case inconclusive. The extension is rebuilt from /repo's working tree (cargo build -p oxmpl-py, debug profile).",
             "DESIGN.md section 5 C19"),
     "C20": (True, "fault_enumeration",
-            "fault injection in Python callbacks (raise - six exception classes incl. InterruptedError and KeyboardInterrupt - / None / str / int / list, on a fault region or at the k-th call for k < 10) with a differential oracle against the callback that returns False in the same situations and against the core on world + region",
+            "fault injection in Python callbacks (raise - seven exception classes incl. InterruptedError, KeyboardInterrupt and one whose __str__ raises - / None / str / int / float / list / (True, text) tuple / truthy non-bool object, on a fault region or at the k-th call for k < 10) with a differential oracle against the callback that returns False in the same situations and against the core on world + region",
             "192 / 960 groups of runs per tier on seeded scenarios over all six Python problem variants and four planners; a failing callback must give the identical path / error as one returning False and never a path through the fault region; the goal object is itself callable and must never be consulted that way. Only the Python binding is executed: the JavaScript binding (oxmpl-js) cannot run in this image (no wasm32 target, no wasm-bindgen) - that half of the property is not covered.",
             "Trusted: determinism of the seeded planners (C07); PRM (wall-clock build) and timed-out runs are only checked for 'no state in the fault region'.",
             "DESIGN.md section 5 C20"),
